@@ -24,7 +24,11 @@ RULE = ('all 16 unit keys of the gas-constant table x estimates of generated '
         '16 units; distinct by (library, molecule or group).'
         ' Argument forms: units positional and by keyword, T as float / int '
         '/ numpy scalar (a rotating quarter of the unit keys); S_elements '
-        'omitted / None / False / 0 / True / 1. ')
+        'omitted / None / False / 0 / True / 1. '
+        ' '
+        'Rounds 17-19: the two protocol steps handed between a worker'
+        ' thread and the main thread; copies / pickles of molecule'
+        ' estimates; all unit keys of shared objects from four threads.')
 ASSUMPTIONS = [
     'pmutt.constants.R and S_elements are trusted third-party tables (the '
     'harness carries its own copy of the 16 R values and compares)',
